@@ -138,7 +138,9 @@ class ExactAlgorithmCplex(ExactAlgorithmBase, PairwiseBasedAlgorithm):
                     # update the ranking to return
                     # the rankings containing no element of the sub-problem are kept (as empty rankings): they
                     # still contribute to the cost of each pair of elements of the sub-problem
-                    new_dataset: Dataset = dataset.sub_problem_from_ids(scc_i_set, keep_empty_rankings=True)
+                    # its elements keep their type: the consensus of the sub-problem is a part of the final one
+                    new_dataset: Dataset = dataset.sub_problem_from_ids(scc_i_set, keep_empty_rankings=True,
+                                                                        keep_element_types=True)
                     rankings: List[Ranking] = self._compute_consensus_rankings_with_optim(new_dataset, scoring_scheme,
                                                                                           False, True)
                     for bucket in rankings[0]:
